@@ -26,13 +26,17 @@ def setup():
 
 
 def force_grid(nprocs):
-    """Make setupCylindricalGrid / setupFromFile use the given process grid (None: restore)."""
+    """Make setupCylindricalGrid / setupFromFile use the given process grid (None: restore).
+    The answer is forced only when the setup function asks for the process count the grid was
+    made for; for any other count (the plotting rank alone, or a wrongly computed size) the real
+    function answers, so a wrong size stays visible."""
     S = _state['S']
     if nprocs is None:
         S.compute_2d_process_grid = _state['orig_grid']
     else:
         t = (int(nprocs[0]), int(nprocs[1]))
-        S.compute_2d_process_grid = lambda npts, size: t
+        orig = _state['orig_grid']
+        S.compute_2d_process_grid = lambda npts, size: t if int(size) == t[0] * t[1] else orig(npts, size)
 
 
 def run_world(nprocs, fn, chooser=None, mode='S', red_order=None, quiet=True, cwd=None, argv=None):
